@@ -9,7 +9,7 @@ CASES_PER_SHARD = 40
 CASE_TIMEOUT = 120
 DIRS = ["up", "down", "left", "right"]
 RULE = ("dataset shapes of the property (single datum, equal times, unsorted, spans from 1 ms to centuries incl. month ends, "
-        "leap days, year ends; numeric data with a LinearScale; date / datetime / time values) x options in {omitted, empty, "
+        "leap days, year ends, the latest datum on a 29th-31st with month / quarter / year ticks; numeric data with a LinearScale; date / datetime / time values) x options in {omitted, empty, "
         "partial} x direction x layering algorithm x bounds x tick display; thorough adds 200..1000-label datasets with conflict "
         "clusters <= 200. Both back-ends are exported. Non-trivial = more than one datum or a degenerate domain; distinct by input.")
 
@@ -18,11 +18,15 @@ RULE = ("dataset shapes of the property (single datum, equal times, unsorted, sp
 def impl(py):
     from harness import tl_common as T
     from xml.etree import ElementTree
-    out = {}
+    out = {"today": list(datetime.date.today().timetuple()[:3])}
     for kind in ("svg", "tex"):
         data = T.mk_data(py["data"])
+        for d, spec in zip(data, py["data"]):
+            d["_id"] = spec.get("_id")
         scale = T.mk_scale("linear") if py["scale"] == "linear" else None
         opts = T.mk_options(py["opts"], scale)
+        if opts is not None and opts.get("domain"):
+            opts["domain"] = [T.mk_time(x) for x in opts["domain"]]
         tl = T.mk_timeline(kind, data, opts)
         txt = T.export_text(tl)
         sc = tl.options["scale"]
@@ -40,12 +44,81 @@ def impl(py):
                 dots.append(float(c.get("cx") if c.get("cx") is not None else c.get("cy")))
             out["dots"] = [d.hex() for d in dots]
             out["nticks"] = sum(1 for g in root.iter("g") if g.get("class") == "tick")
+            tk = []
+            for g in root.iter("g"):
+                if g.get("class") == "tick":
+                    m = re.match(r"translate\(([^,]+),\s*([^)]+)\)", g.get("transform"))
+                    tk.append([float(m.group(1)).hex(), float(m.group(2)).hex()])
+            out["ticks"] = tk
+            out["dir"] = tl.direction
             out["nboxes"] = sum(1 for g in root.iter("g") if g.get("class") == "label-g")
             out["order"] = [n.data.data.get("_id") for n in tl.nodes]
         else:
             out["tex_dots"] = len(re.findall(r"\\draw node \[circle", txt))
             out["tex_ok"] = txt.rstrip().endswith("\\end{document}")
     return out
+
+
+# ------------------------------------------------------------- model call ---
+DEF = {"direction": "right", "initialWidth": 400, "initialHeight": 400, "showTicks": True,
+       "margin": {"left": 20, "right": 20, "top": 20, "bottom": 20}}
+EPOCH = datetime.datetime(1970, 1, 1)
+
+
+def _q(x):
+    f = Fraction(x)
+    return [f.numerator, f.denominator]
+
+
+def _tval(t):
+    if isinstance(t, (int, float)):
+        return [0] + _q(float(t))
+    kind, v = t.split(":", 1)
+    if kind == "D":
+        d = datetime.date.fromisoformat(v)
+        return [1, d.year, d.month, d.day]
+    if kind == "T":
+        d = datetime.datetime.fromisoformat(v)
+        return [2, (d - EPOCH) // datetime.timedelta(microseconds=1)]
+    c = datetime.time.fromisoformat(v)
+    return [3, c.hour, c.minute, c.second, c.microsecond]
+
+
+def model_call(py, today=None):
+    """command 700 of coq/Extract/ApiAxis.v"""
+    today = today or list(datetime.date.today().timetuple()[:3])
+    o = py["opts"] or {}
+    g = lambda k: o.get(k, DEF[k])
+    mg = dict(DEF["margin"])
+    mg.update(o.get("margin") or {})
+    call = [700, 0 if py["scale"] == "linear" else 1] + list(today)
+    call += [DIRS.index(g("direction"))] + _q(g("initialWidth")) + _q(g("initialHeight"))
+    call += _q(mg["left"]) + _q(mg["right"]) + _q(mg["top"]) + _q(mg["bottom"])
+    call += [1 if g("showTicks") else 0]
+    dom = o.get("domain")
+    if dom:
+        call += [1] + _tval(dom[0]) + _tval(dom[1])
+    else:
+        call += [0]
+    call += [len(py["data"])]
+    for d in py["data"]:
+        call += _tval(d["time"])
+    return call
+
+
+def _extent_call(py):
+    """linear scale without explicit domain: command 260 (nice with its band alternatives)"""
+    if py["scale"] != "linear" or (py["opts"] or {}).get("domain"):
+        return []
+    xs = [float(d["time"]) for d in py["data"] if isinstance(d["time"], (int, float))]
+    if len(xs) != len(py["data"]) or not xs:
+        return []
+    return [[260] + _q(min(xs)) + _q(max(xs)) + [10]]
+
+
+def with_model(c, today=None):
+    c["model"] = [model_call(c["py"], today)] + _extent_call(c["py"])
+    return c
 
 
 # ------------------------------------------------------------- generator ---
@@ -78,6 +151,28 @@ def _dt_dataset(rng, n, shape):
             items.append({"time": "D:" + t.date().isoformat()})
         else:
             items.append({"time": _iso(t)})
+    return items
+
+
+def _ends_on_month_end(rng, n):
+    """the LATEST datum lies on a 29th-31st (or 29 February) and the span asks for month,
+    quarter or year ticks: nice() must take the ceiling of a month-end instant"""
+    import calendar
+    y = rng.randrange(1905, 2195)
+    if rng.random() < 0.25:
+        y = rng.choice([1904, 1996, 2000, 2024, 2096, 2104])
+        end = datetime.datetime(y, 2, 29)
+    else:
+        mo = rng.choice([1, 1, 3, 5, 7, 8, 10, 12, 4, 6])
+        end = datetime.datetime(y, mo, rng.randrange(29, calendar.monthrange(y, mo)[1] + 1))
+    end += datetime.timedelta(milliseconds=rng.choice([0, 0, rng.randrange(0, 86400000)]))
+    span_days = rng.choice([150, 200, 300, 400, 519, 600, 900, 1500, 1790, 2500, 5000, 12000])
+    items = [{"time": _iso(end)}]
+    for _ in range(n - 1):
+        items.append({"time": _iso(end - datetime.timedelta(days=rng.randrange(0, span_days + 1),
+                                                             milliseconds=rng.randrange(0, 1000)))})
+    if n > 1:
+        items[1] = {"time": _iso(end - datetime.timedelta(days=span_days))}
     return items
 
 
@@ -135,7 +230,11 @@ def make(rng, n=None, shape=None, kind=None):
     kind = kind or rng.choice(["time", "time", "time", "linear", "clock"])
     shape = shape or rng.choice(["plain", "plain", "equal", "month_end", "leap", "year_end", "dates", "single"])
     n = n or (1 if shape == "single" else rng.choice([1, 2, 2, 3, 5, 8, 13, 30]))
-    if kind == "linear":
+    if shape == "max_month_end":
+        kind = "time"
+        n = max(n, 2)
+        data = _ends_on_month_end(rng, n)
+    elif kind == "linear":
         data = _num_dataset(rng, n, shape)
     elif kind == "clock":
         data = _clock_dataset(rng, n)
@@ -148,7 +247,10 @@ def make(rng, n=None, shape=None, kind=None):
         if rng.random() < 0.5:
             d["text"] = rng.choice(["a", "label %d" % i, "x<y&z", "été", "Á", "…", "日本"])
     py = {"data": data, "opts": _opts(rng), "scale": "linear" if kind == "linear" else "time"}
-    return {"kind": "%s/%s" % (kind, shape), "py": py, "model": []}
+    if kind != "clock" and rng.random() < 0.12:
+        py["opts"] = dict(py["opts"] or {})
+        py["opts"]["domain"] = _explicit_domain(rng, data, kind)
+    return with_model({"kind": "%s/%s" % (kind, shape), "py": py})
 
 
 def make_big(rng, gsize=None, groups=None):
@@ -171,14 +273,45 @@ def make_big(rng, gsize=None, groups=None):
     py = {"data": items, "scale": "time", "gsize": gsize,
           "opts": {"direction": d, "initialWidth": length + 40 if d in ("up", "down") else 400,
                    "initialHeight": length + 40 if d in ("left", "right") else 400, "labella": lab}}
-    return {"kind": "big/%dx%d" % (groups, gsize), "py": py, "model": []}
+    return with_model({"kind": "big/%dx%d" % (groups, gsize), "py": py})
+
+
+def _explicit_domain(rng, data, kind):
+    """an explicit `domain` option: around, inside or reversed w.r.t. the data"""
+    if kind == "linear":
+        xs = [float(d["time"]) for d in data]
+        lo, hi = min(xs), max(xs)
+        w = (hi - lo) or 1.0
+        a, b = lo - rng.choice([0, 0.25, 1]) * w, hi + rng.choice([0, 0.5, 2]) * w
+        if rng.random() < 0.3:
+            a, b = lo + 0.25 * w, hi - 0.25 * w + (w if hi - lo == 0 else 0)
+        if rng.random() < 0.2:
+            a, b = b, a
+        return [a, b]
+    ts = []
+    for d in data:
+        k, v = d["time"].split(":", 1)
+        ts.append(datetime.datetime.fromisoformat(v) if k == "T" else
+                  datetime.datetime.combine(datetime.date.fromisoformat(v), datetime.time()))
+    lo, hi = min(ts), max(ts)
+    w = (hi - lo) or datetime.timedelta(seconds=rng.choice([1, 3600, 86400 * 40]))
+    a = lo - rng.choice([0, 1, 3]) * w / 4
+    b = hi + rng.choice([0, 1, 8]) * w / 4
+    a = a.replace(microsecond=a.microsecond // 1000 * 1000)
+    b = b.replace(microsecond=b.microsecond // 1000 * 1000)
+    if a == b:
+        b = a + datetime.timedelta(milliseconds=1)
+    if not (1900 <= a.year and b.year <= 2200):
+        a, b = lo, hi + datetime.timedelta(milliseconds=1)
+    if rng.random() < 0.2:
+        a, b = b, a
+    return [_iso(a), _iso(b)]
 
 
 def rebuild(c):
     c = dict(c)
-    c.setdefault("model", [])
     c.setdefault("kind", "corpus")
-    return c
+    return with_model(c)
 
 
 def gen(rng, tier):
@@ -189,6 +322,8 @@ def gen(rng, tier):
         for kind in ["time", "linear"]:
             for _ in range(6 if tier == "quick" else 60):
                 yield make(rng, shape=shape, kind=kind)
+    for _ in range(60 if tier == "quick" else 600):
+        yield make(rng, shape="max_month_end", kind="time")
     for _ in range(2 if tier == "quick" else 12):
         yield make_big(rng)
 
@@ -227,8 +362,176 @@ def nontrivial(case, io):
     return len(case["py"]["data"]) > 1 or True
 
 
+EPS = 1e-9
+
+
+def _decode(m):
+    """output of command 700"""
+    def pval(k):
+        if m[k] == 0:
+            return Fraction(m[k + 1], m[k + 2]), k + 3
+        return m[k + 1], k + 2
+
+    def qlist(k):
+        n = m[k]
+        return [Fraction(m[k + 1 + 2 * j], m[k + 2 + 2 * j]) for j in range(n)], k + 1 + 2 * n
+    d0, k = pval(1)
+    d1, k = pval(k)
+    length = Fraction(m[k], m[k + 1])
+    dots, k = qlist(k + 2)
+    ticks, k = qlist(k)
+    return d0, d1, length, dots, ticks
+
+
+def _close(x, want, length, cond=0.0):
+    """1e-9 relative + 1e-9 x axis length; `cond` adds the conditioning of a linear domain
+    whose magnitude dwarfs its span (the tick values k*step and the data carry up to a few
+    ulps of the domain magnitude, which (x - d0) / (d1 - d0) amplifies)"""
+    want = float(want)
+    return abs(x - want) <= EPS * max(abs(x), abs(want)) + (EPS + cond) * abs(float(length)) + 1e-12
+
+
+def _cond(linear, d0, d1):
+    if not linear or d0 == d1:
+        return 0.0
+    return 16 * 2.0 ** -52 * float(max(abs(d0), abs(d1)) / abs(d1 - d0))
+
+
+def prepare_compare(cases, impl_out, model_out, workdir):
+    """second round of model calls that need first-round results:
+    (a) bare datetime.time data are completed with date.today() by the implementation:
+        if the implementation's day differs from the one the call was built with
+        (a run across midnight), the call is rebuilt with the implementation's day;
+    (b) linear scale: the band alternatives of the ticks (command 232) on the model's domain."""
+    import os
+    from harness import core
+    extra = []
+    for i, (c, io, mo) in enumerate(zip(cases, impl_out, model_out)):
+        if not isinstance(io, dict) or "exc" in io or not c["model"]:
+            continue
+        if any(isinstance(d["time"], str) and d["time"].startswith("C:") for d in c["py"]["data"]):
+            if list(io.get("today", [])) != c["model"][0][2:5]:
+                extra.append((i, "today", [model_call(c["py"], list(io["today"]))]))
+                continue
+        if c["py"]["scale"] == "linear" and mo and mo[0] and mo[0][0] == 1:
+            d0, d1, _, _, _ = _decode(mo[0])
+            extra.append((i, "alts", [[232] + [d0.numerator, d0.denominator, d1.numerator, d1.denominator, 10]]))
+    if not extra:
+        return
+    res = core.run_model([{"model": calls} for _, _, calls in extra], os.path.join(workdir, "round2"))
+    for (i, what, calls), r in zip(extra, res):
+        if what == "today":
+            cases[i]["model"][0] = calls[0]
+            model_out[i][0] = r[0]
+        else:
+            cases[i]["model"] = cases[i]["model"] + calls
+            model_out[i] = model_out[i] + r
+
+
+def _tick_alts(m):
+    """decode command 232: list of tick lists"""
+    out, k = [], 2
+    for _ in range(m[1]):
+        k += 2          # step
+        k += 1          # decimals
+        n = m[k]
+        tk = [Fraction(m[k + 1 + 2 * j], m[k + 2 + 2 * j]) for j in range(n)]
+        k += 1 + 2 * n
+        n2 = m[k]
+        k += 1 + n2     # texts
+        out.append(tk)
+    return out
+
+
 def compare(case, io, mo):
+    from harness import core
+    from harness.props import c16
+    py = case["py"]
+    m = mo[0] if mo else None
+    if m is None or m[0] == -999:
+        return "model rejected the input"
+    if "exc" in io:
+        if io["exc"] == "RecursionError" and _max_cluster_hint(case) > 200:
+            return None          # recursion depth is not in the model (known finding; the oracle reports it)
+        if m[0] == 1:
+            return "implementation raised %s (%s), the model returns a value" % (io["exc"], io.get("msg", ""))
+        return None if m[0] == 0 else "model out of fuel"
+    if m[0] != 1:
+        return "the model %s, the implementation returns a value" % (
+            "raises (kind %d)" % m[1] if m[0] == 0 else "runs out of fuel")
+    d0, d1, length, dots, ticks = _decode(m)
+    linear = py["scale"] == "linear"
+    explicit = bool((py["opts"] or {}).get("domain"))
+    ambiguous = False
+    # range
+    if [float(x) for x in io["range"]] != [0.0, float(length)]:
+        return "range %r, the model has [0, %s]" % (io["range"], float(length))
+    # domain
+    if linear:
+        got = [Fraction(float.fromhex(x)) for x in io["domain"]]
+        tol = lambda w: EPS * max(abs(d0), abs(d1), abs(d1 - d0))
+        if not (abs(got[0] - d0) <= tol(0) and abs(got[1] - d1) <= tol(0)):
+            alts = c14lin_decode(mo[1])[5] if (len(mo) > 1 and mo[1] and mo[1][0] == 1 and not explicit) else []
+            for a0, a1 in alts:
+                if abs(got[0] - a0) <= EPS * max(abs(a0), abs(a1), 1e-300) and abs(got[1] - a1) <= EPS * max(abs(a0), abs(a1), 1e-300):
+                    raise core.Ambiguous()
+            return "domain %r, the model has [%s, %s]" % ([float(g) for g in got], float(d0), float(d1))
+    else:
+        if list(io["domain"]) != [d0, d1]:
+            lo, hi = _time_extent(py, io)
+            if not explicit and c16.ambiguous({"dom": [lo, hi], "m": 10}):
+                raise core.Ambiguous()
+            return "domain %r, the model has %r" % (io["domain"], [d0, d1])
+    # dots, in datum order
+    cond = _cond(linear, d0, d1)
+    got = [float.fromhex(x) for x in io["dots"]]
+    if io.get("order") and None not in io["order"] and sorted(io["order"]) == list(range(len(got))):
+        by_id = dict(zip(io["order"], got))
+        got = [by_id[d["_id"]] for d in py["data"]] if all("_id" in d for d in py["data"]) else got
+    if len(got) != len(dots):
+        return "%d dots, the model has %d" % (len(got), len(dots))
+    for j, (x, w) in enumerate(zip(got, dots)):
+        if not _close(x, w, length, cond):
+            return "dot %d at %r, the model has %r" % (j, x, float(w))
+    # ticks
+    horiz = io["dir"] in ("up", "down")
+    tk = [float.fromhex(t[0] if horiz else t[1]) for t in io["ticks"]]
+    ok = len(tk) == len(ticks) and all(_close(x, w, length, cond) for x, w in zip(tk, ticks))
+    if not ok:
+        if linear:
+            for alt in (_tick_alts(mo[-1]) if (len(mo) > 1 and mo[-1] and mo[-1][0] == 1 and case["model"][-1][0] == 232) else []):
+                pos = [_lin(d0, d1, length, t) for t in alt]
+                if len(pos) == len(tk) and all(_close(x, w, length, cond) for x, w in zip(tk, pos)):
+                    raise core.Ambiguous()
+        elif c16.ambiguous({"dom": [d0, d1], "m": 10}):
+            raise core.Ambiguous()
+        return "tick positions %r, the model has %r" % (tk[:6], [float(t) for t in ticks[:6]])
     return None
+
+
+def _lin(d0, d1, length, x):
+    return Fraction(0) if d1 == d0 else length * (x - d0) / (d1 - d0)
+
+
+def c14lin_decode(m):
+    from harness.props import c14lin
+    return c14lin.decode(m)
+
+
+def _time_extent(py, io):
+    """the extent of the parsed times in epoch microseconds (today from the implementation)"""
+    us = []
+    for d in py["data"]:
+        t = d["time"]
+        k, v = t.split(":", 1)
+        if k == "T":
+            x = datetime.datetime.fromisoformat(v)
+        elif k == "D":
+            x = datetime.datetime.combine(datetime.date.fromisoformat(v), datetime.time())
+        else:
+            x = datetime.datetime.combine(datetime.date(*io["today"]), datetime.time.fromisoformat(v))
+        us.append((x - EPOCH) // datetime.timedelta(microseconds=1))
+    return min(us), max(us)
 
 
 def search(rng, tier, mism):
@@ -245,9 +548,37 @@ def shrink_candidates(case):
         for i in range(len(d)):
             q = dict(py)
             q["data"] = d[:i] + d[i + 1:]
-            yield {"kind": case["kind"], "py": q, "model": []}
+            yield with_model({"kind": case["kind"], "py": q})
     if py["opts"]:
         for k in list(py["opts"].keys()):
             q = dict(py)
             q["opts"] = {a: b for a, b in py["opts"].items() if a != k}
-            yield {"kind": case["kind"], "py": q, "model": []}
+            yield with_model({"kind": case["kind"], "py": q})
+
+
+EXPLANATION = ("C11_total (never raises, never out of fuel on the documented domain), C11_degenerate and C11_counts are about the "
+               "axis pipeline model coq/Render/Axis.v (parse_items, max() of equal_heights, init_axis with explicit domain or "
+               "extent + nice(), range, timePos, ticks) over the verified scale models; the tie compares, per export, "
+               "success-vs-exception, the reported domain (time: exact microseconds; linear: 1e-9 relative, with the nice() band "
+               "alternatives of Scale/Band.v counted as ambiguous), the range, every dot position and every tick position "
+               "(1e-9 relative + 1e-9 x axis length) with the model, and runs BOTH back-ends through the real layout engine and "
+               "emitters, whose failures (any exception) the oracle reports.")
+LEVEL_TEXT = ("Machine-checked Coq theorems on a Gallina model of the axis pipeline of labella/timeline.py in an error monad (an "
+              "explicit failure at every raising Python operation on the path): for every non-empty dataset of numbers with a "
+              "LinearScale, or of date/datetime/time values of millisecond resolution in years 1900-2200 with the TimeScale, with "
+              "or without an explicit domain, any direction, sizes, margins and tick display, the pipeline returns a value - it "
+              "never raises and never runs out of fuel (C11_total; time-nice totality proved for that year range and every count); "
+              "a degenerate domain puts every dot at coordinate 0 for both scale kinds (C11_degenerate); one dot per datum in "
+              "datum order at the scale position of its time (C11_counts). The model is tied to the code by differential "
+              "execution of both exports on every run.")
+LEVEL_NOTE = ("NOT in the Coq model, covered by the tie only: the layout engine's recursion depth (CPython frames; conflict "
+              "clusters above 200 items raise RecursionError: the open known finding the property itself records, "
+              "corpus/C11/recursion_260.json), the dict-key handling of omitted / empty / partial options, the emitters' string "
+              "formatting and tick texts. Trusted: Coq kernel; extraction re-checked on a slice by vm_compute; the correspondence "
+              "harness. Modelled, not verified: labella/*.py; doubles as exact rationals (ambiguity bands of nice()/ticks() "
+              "counted, not compared). Bare datetime.time data are completed with the implementation's own date.today(), which "
+              "is passed to the model.")
+TECHNIQUE = ("Coq proof (error-monad pipeline over the verified linear/time scale models; time-nice totality by loop variants and "
+             "a reach bound) + model/implementation correspondence on both back-ends + exception oracle")
+ASSUMPTIONS = ["conflict clusters of at most 200 items (larger ones: open known finding, recursion limit)",
+               "instants of millisecond resolution in years 1900-2200 (DESIGN.md Appendix B)"]
